@@ -39,6 +39,7 @@ func main() {
 	mutate := flag.Bool("mutate", false, "systematic mutation sweep of the property's anchor functions (report in <verif>/mutation/)")
 	mutWorker := flag.String("mutant-worker", "", "internal: evaluate the mutants listed in this file")
 	mutOut := flag.String("mutant-out", "", "internal: where the worker writes its results")
+	renames := flag.Bool("renames", false, "with -mutate: sweep behaviour-preserving renames of locals instead (every report is a false alarm)")
 	par := flag.Int("par", 0, "mutation sweep: parallel workers (default NumCPU/2)")
 	limit := flag.Int("limit", 0, "mutation sweep: at most this many mutants (deterministic thinning)")
 	flag.Parse()
@@ -77,6 +78,7 @@ func main() {
 		os.Exit(runMutantWorker(*mutWorker, *mutOut, *prop, *repo))
 	}
 	if *mutate {
+		sweepRenames = *renames
 		rc := 0
 		for _, id := range strings.Split(*prop, ",") {
 			if r := runMutationSweep(*repo, *verif, id, *par, *limit); r > rc {
